@@ -301,8 +301,9 @@ def run(ck, facts):
               (sorted(os_keys), sorted(set_keys), "kotlin." + (sorted(set_keys - os_keys) or ["?"])[0]), C.loc(osf))
     go = tool.fn("config::Config::get_overridden")
     gb = C.fn_body(go)
-    fmt = [C.macro_strings(n) for n in C.walk(gb) if n.get("k") == "macro" and n.get("name") == "format"]
-    okf = any(s == ["{}."] for s in fmt)
+    def is_prefix_fmt(m_):
+        return m_.get("k") == "macro" and m_.get("name") == "format" and re.fullmatch(r"\{[\w.&*]+\}\.", C.macro_fmt_canon(m_) or "") is not None
+    okf = any(is_prefix_fmt(n) for n in C.walk(gb))
     loops = [n for n in C.walk(gb) if n.get("k") == "for" and any(y.get("k") == "field" and y.get("n") == "language_overrides" for y in C.walk(n["iter"]))]
     okl = len(loops) == 1
     if okl:
@@ -310,18 +311,28 @@ def run(ck, facts):
         ifs = [x for x in C.walk(body) if x.get("k") == "if"]
         # the local holding `format!("{}.", target)` (whatever it is called)
         pre_names = {n["pat"].get("n") for n in C.walk(gb) if n.get("k") == "letst" and isinstance(n.get("pat"), dict) and n.get("init") is not None and
-                     any(C.macro_strings(m_) == ["{}."] for m_ in C.walk(n["init"]) if m_.get("k") == "macro" and m_.get("name") == "format")}
+                     any(is_prefix_fmt(m_) for m_ in C.walk(n["init"]))}
 
         def is_pre(e):
             e = C.strip(e)
             while isinstance(e, dict) and e.get("k") in ("addr", "deref") or (isinstance(e, dict) and e.get("k") == "mcall" and e.get("m") in ("as_str", "as_ref", "clone")):
                 e = C.strip(list(C.children(e))[0]) if e.get("k") != "mcall" else C.strip(e["recv"])
             return isinstance(e, dict) and e.get("k") == "local" and e.get("n") in pre_names
-        okl = len(ifs) == 1 and C.strip(ifs[0]["c"]).get("k") == "mcall" and C.strip(ifs[0]["c"]).get("m") == "starts_with" and is_pre(C.strip(ifs[0]["c"])["a"][0])
         sets = [x for x in C.walk(body) if x.get("k") == "mcall" and x.get("m") == "set"]
-        okl = okl and len(sets) == 1 and any(y.get("k") == "field" and y.get("n") == "shared_config" for y in C.walk(sets[0]["recv"])) and \
-            any(y.get("k") == "mcall" and y.get("m") in ("replace", "replacen", "strip_prefix", "trim_start_matches") and is_pre(y["a"][0]) for y in C.walk(sets[0]["a"][0])) and \
-            all(x in list(C.walk(ifs[0]["t"])) for x in sets)
+
+        def guarded_by_prefix(sx):
+            # the only condition on the path to the `set` is `key.starts_with(prefix)` holding (`if p {set}` or `if !p {continue}; set`)
+            conds = [(a_, b_) for n_, st_ in C.with_conditions(body) if n_ is sx for k_, a_, b_ in st_ if k_ == "if"]
+            if len(conds) != 1:
+                return False
+            c_, br = C.strip(conds[0][0]), conds[0][1]
+            neg = False
+            while isinstance(c_, dict) and c_.get("k") == "un" and c_.get("op") == "Not":
+                neg = not neg
+                c_ = C.strip(c_["e"])
+            return isinstance(c_, dict) and c_.get("k") == "mcall" and c_.get("m") == "starts_with" and is_pre(c_["a"][0]) and ((br == "t") != neg)
+        okl = len(sets) == 1 and guarded_by_prefix(sets[0]) and any(y.get("k") == "field" and y.get("n") == "shared_config" for y in C.walk(sets[0]["recv"])) and \
+            any(y.get("k") == "mcall" and y.get("m") in ("replace", "replacen", "strip_prefix", "trim_start_matches") and is_pre(y["a"][0]) for y in C.walk(sets[0]["a"][0]))
     ck.expect(okf and okl, "R3", "get_overridden/filter", "applies overrides whose key starts with `<target>.`", "get_overridden no longer applies exactly the overrides prefixed with `<target>.` to the shared config", C.loc(go))
     # accepted target spellings vs prefixes
     import c13
@@ -376,10 +387,12 @@ def run(ck, facts):
         ck.expect(names and not bad, "R4", "read_file/set#%d-keys-snake" % i, str([n for n, _ in names]), "key parts %s reach `set` without snake_case conversion (kebab-case keys in config.toml would be dropped)" % bad, C.loc(rf, sx.get("ln")))
     # the snake conversion of the outer key must not be inside only one branch: it has to dominate the table branch
     for n in C.walk(rb):
-        if n.get("k") == "for" and any(y.get("n") == "config_table" for y in C.walk(n["iter"])):
+        if n.get("k") == "for" and all(any(x is sx for x in C.walk(n["body"])) for sx in sets) and not any(
+                y.get("k") == "for" and y is not n and all(any(x is sx for x in C.walk(y["body"])) for sx in sets) for y in C.walk(n["body"])):
+            # the innermost loop that contains both `set` sites: the loop over the top-level table
             top = block_stmts(n["body"])
             first_snake = next((i for i, s in enumerate(top) if s.get("k") == "letst" and s["pat"].get("id") in snake), None)
-            first_if = next((i for i, s in enumerate(top) if C.strip(s).get("k") == "if"), None)
+            first_if = next((i for i, s in enumerate(top) if any(any(x is sx for x in C.walk(s)) for sx in sets)), None)   # the table / scalar branch (if-let or match)
             ck.expect(first_snake is not None and first_if is not None and first_snake < first_if, "R4", "read_file/outer-key-snake-before-branch", "",
                       "the outer key is not snake_cased before the table/scalar branch", C.loc(rf))
 
